@@ -11,6 +11,13 @@
      onterminate(inst)                   the harness implementor's OnTerminate runs
      quiet                               every operation of the round has returned
 
+   The client-side service (TraceService_client.cfg, ClientSide = TRUE; hooks of
+   bus/service_reference.go under objectsMutex): add(inst, id) with inst = id = the counter value,
+   remove(id) / remove_unknown(id) at the deletion of the objectsHandlers entry, connclose at the
+   shut-down of the end point (under its handlersMutex).  The handler is removed from the end
+   point after the entry, so a call that raced the removal may still be executed: exec events
+   are only constrained after `quiet` (no tobox / noobj events on this path).
+
    add / remove / terminate events are the specification's actions (AddAs with
    the instance and identifier the code chose).  The code runs OnTerminate
    AFTER releasing the lock and a method AFTER Receive has queued the mail, so
@@ -39,19 +46,21 @@ Is(k) == l <= TraceLen /\ T.k = k
 Adv == l' = l + 1
 
 TReset == /\ Is("reset")
-          /\ objects' = [i \in Ids |-> IF i = 1 THEN 1 ELSE NONE]
-          /\ boxes' = [i \in Ids |-> IF i = 1 THEN 1 ELSE NONE]
-          /\ st' = [k \in Inst |-> IF k = 1 THEN "live" ELSE "new"]
-          /\ idOf' = [k \in Inst |-> IF k = 1 THEN 1 ELSE 0]
+          /\ objects' = InitTable /\ boxes' = InitTable
+          /\ st' = InitSt /\ idOf' = InitIdOf
+          /\ slot' = NoSlot /\ handlers' = NoHandler /\ conn' = "open"
           /\ term' = Zero /\ exec' = Zero
           /\ subs' = [k \in Inst |-> {}]
           /\ told' = [k \in Inst |-> [s \in Subs |-> 0]] /\ got' = [k \in Inst |-> [s \in Subs |-> 0]]
           /\ svc' = "up" /\ crashed' = FALSE /\ ret' = R("", 0)
           /\ rterm' = Zero /\ rexec' = Zero /\ delivered' = Zero /\ quiet' = FALSE /\ Adv
 
-TAdd     == Is("add") /\ IsFresh(T.id) /\ AddAs(T.inst, T.id) /\ Keep /\ Adv
-TAddFail == Is("addfail") /\ IsFresh(T.id) /\ AddFailAs(T.inst, T.id) /\ Keep /\ Adv
-TReserve == Is("reserve") /\ IsFresh(T.id) /\ UNCHANGED vars /\ Keep /\ Adv
+\* concurrent additions of the client-side service draw their identifiers from the counter in one
+\* critical section and register them in another: the add events need not be in counter order
+TFresh(id) == IF ClientSide THEN id \in Inst /\ st[id] = "new" /\ objects[id] = NONE ELSE IsFresh(id)
+TAdd     == Is("add") /\ TFresh(T.id) /\ AddAs(T.inst, T.id) /\ Keep /\ Adv
+TAddFail == Is("addfail") /\ TFresh(T.id) /\ AddFailAs(T.inst, T.id) /\ Keep /\ Adv
+TReserve == Is("reserve") /\ TFresh(T.id) /\ UNCHANGED vars /\ Keep /\ Adv
 TRemove  == Is("remove") /\ objects[T.id] \in Inst /\ Remove(T.id) /\ Keep /\ Adv
 TRemoveU == Is("remove_unknown") /\ objects[T.id] \notin Inst /\ Remove(T.id) /\ Keep /\ Adv
 TTerm    == Is("terminate") /\ SvcTerminate /\ Keep /\ Adv
@@ -59,7 +68,10 @@ TToBox   == /\ Is("tobox") /\ boxes[T.id] \in Inst
             /\ delivered' = [delivered EXCEPT ![boxes[T.id]] = @ + 1]
             /\ UNCHANGED <<vars, rterm, rexec, quiet>> /\ Adv
 TNoObj   == Is("noobj") /\ boxes[T.id] = NONE /\ UNCHANGED vars /\ Keep /\ Adv
-TExec    == /\ Is("exec") /\ rexec[T.inst] < delivered[T.inst]
+\* endPoint.closeWith may run twice (Close, then the read error of the receive loop): the second
+\* run finds no handler
+TConn    == Is("connclose") /\ (IF conn = "open" THEN ConnClose ELSE UNCHANGED vars) /\ Keep /\ Adv
+TExec    == /\ Is("exec") /\ (ClientSide \/ rexec[T.inst] < delivered[T.inst])
             /\ (quiet => st[T.inst] = "live")
             /\ rexec' = [rexec EXCEPT ![T.inst] = @ + 1]
             /\ UNCHANGED <<vars, rterm, delivered, quiet>> /\ Adv
@@ -70,7 +82,7 @@ TQuiet   == /\ Is("quiet") /\ rterm = term
             /\ quiet' = TRUE /\ UNCHANGED <<vars, rterm, rexec, delivered>> /\ Adv
 TEnd     == Is("end") /\ rterm = term /\ UNCHANGED vars /\ Keep /\ Adv
 
-TNext == TReset \/ TAdd \/ TAddFail \/ TReserve \/ TRemove \/ TRemoveU \/ TTerm \/ TToBox \/ TNoObj
+TNext == TReset \/ TAdd \/ TAddFail \/ TReserve \/ TRemove \/ TRemoveU \/ TTerm \/ TConn \/ TToBox \/ TNoObj
          \/ TExec \/ TOnTerm \/ TQuiet \/ TEnd
 TSpec == TInit /\ [][TNext]_tvars
 
